@@ -71,4 +71,28 @@ WWrite(st, out, s) ==
     [] s.k = "SE"  -> WPop(b, out, "ST")
     [] OTHER -> [st |-> b, out |-> Append(out, s)]
 WCloseAll(st, out) == WPop(st, out, "ISA")
+
+(* ------------------------------------------------------------------ delimiters *)
+(* Characters are code points.  A writer setting w = [st, et, ct, rt]: segment,  *)
+(* element and sub-element terminators and repetition separator given to the     *)
+(* X12Writer.  A source delimiter set src = [seg, ele, sub, rep]: the delimiters *)
+(* of the document the Segment objects handed to Write() were parsed from - the  *)
+(* property quantifies over all of them and the definition below does not        *)
+(* mention src: whatever the source was, the ISA written carries the WRITER's    *)
+(* delimiters.  An ISA observed in the output text: et = the character right     *)
+(* after "ISA", nel = number of fields when split at w.et, e11 / e16 = the code  *)
+(* points of fields ISA11 / ISA16 (<<>> when empty or absent), ver = ISA12.      *)
+SettingOk(w) == Cardinality({w.st, w.et, w.ct, w.rt}) = 4
+SourceOk(src) == Cardinality({src.seg, src.ele, src.sub, src.rep}) = 4
+IsaFault(w, isa) ==                                  \* "" = this ISA carries the writer's own delimiters
+  IF isa.et # w.et THEN "fields"
+  ELSE IF isa.e16 # <<w.ct>> THEN "isa16"
+  ELSE IF isa.ver = "00501" /\ isa.e11 # <<w.rt>> THEN "isa11"
+  ELSE IF isa.nel # 17 THEN "fields"
+  ELSE ""
+(* which roles of the source delimiter set a writer delimiter coincides with     *)
+(* (descriptive only: names the combination in a verdict, never decides it)      *)
+Coincide(w, src) ==
+  [rep_is_src_ele |-> w.rt = src.ele, rep_is_src_subele |-> w.rt = src.sub,
+   subele_is_src_ele |-> w.ct = src.ele, subele_is_src_subele |-> w.ct = src.sub]
 =============================================================================
